@@ -204,15 +204,12 @@ func (r *remoteKeySet) updateKeys(ctx context.Context) {
 	simYield(ctx, "update.enter")
 	// Sync keys and finish inflight when that's done.
 	keys, err := r.fetchRemoteKeys(ctx)
-	simYield(ctx, "update.predone")
-
-	r.inflight.done(keys, err)
 	simYield(ctx, "update.precommit")
 
 	// Lock to update the keys and indicate that there is no longer an
 	// inflight request.
 	r.mu.Lock()
-	defer r.mu.Unlock()
+	inflight := r.inflight
 
 	if err == nil {
 		r.cachedKeys = keys
@@ -220,6 +217,14 @@ func (r *remoteKeySet) updateKeys(ctx context.Context) {
 
 	// Free inflight so a different request can run.
 	r.inflight = nil
+	r.mu.Unlock()
+	simYield(ctx, "update.predone")
+
+	// Publish the result only after the cache has been updated and the
+	// inflight request has been released: a goroutine that arrives from now on
+	// must either find the new keys in the cache or start a download of its
+	// own, it must never join a request that has already finished.
+	inflight.done(keys, err)
 }
 
 func (r *remoteKeySet) fetchRemoteKeys(ctx context.Context) ([]jose.JSONWebKey, error) {
